@@ -45,6 +45,18 @@ NEEDS = {
  'C19_a': ('coarse restricted grid: dt of a coarse step = (b-a) instead of the sum of the covered fine steps (same as C08_b)', 'coarse window not aligned with the reference grid'),
  'C19_b': ('values_to_grid stops at the first interval starting at/after the grid end ("remaining intervals start later")', 'interval list not in time order with a late entry listed before entries inside the grid'),
  'C20_a': ('order dispatch factor multiplied by the discount factor (dt*disc reused)', 'OrderBook with wacc != 0 on a longer horizon'),
+ 'C01_c': ('optimal_inaccurate folded into the success branch of optimize (round 2; same mechanism as C03_b)', 'a badly scaled problem on which CLARABEL ends optimal_inaccurate with residuals in the nodal equalities'),
+ 'C01_d': ('nodal restrictions cached on the Portfolio with a key that omits disp_factor (round 2)', 'set up, change a factor-only parameter (transport efficiency, commodity factors) on the asset object, set up again on the same Portfolio'),
+ 'C02_c': ('take volume divided by the summed dt of the covered steps instead of the full period length (round 2)', 'take period partly outside the horizon with non-zero volume and a binding restriction'),
+ 'C02_d': ('Timegrid.set_wacc returns early for wacc == 0 when factors exist (stale discount factors on the shared grid; round 2)', 'mixed wacc in one portfolio with a zero-wacc asset after a non-zero one'),
+ 'C03_c': ('cvxpy branch solves nodal rows with right-hand side 0 instead of b (round 2)', 'an OptimProblem with a non-zero right-hand side in a row of type N (directly constructed / user-set b)'),
+ 'C05_c': ('Storage.fill_level adds inflow over timegrid.restricted (shared, overwritten by the asset set up last) instead of the storage\'s own steps (round 2)', 'inflow != 0, windowed storage, a later asset in the portfolio with another window'),
+ 'C06_c': ('last_dispatch converted with convert_to_timegrid_freq (duration -> steps) instead of * dt (round 2)', 'ramp set, last_dispatch != 0, grid step != main time unit'),
+ 'C07_c': ('make_vector: "if default_value:" instead of "is not None" - default 0 never applied (round 2)', 'a cost parameter with default 0 (start_costs, running_costs, extra_costs ...) given as interval data that does not cover the whole horizon'),
+ 'C07_d': ('split set-up translates the interval problem\'s OWN mapping (no deepcopy) (round 2)', 'split optimisation with >= 2 non-empty intervals (and a MIP asset for the functional consequence)'),
+ 'C08_c': ('prorated take value written back into the asset\'s take dictionary (round 2)', 'Contract with a take period only partly covered and at least two set-ups on the same object'),
+ 'C10_c': ('StructuredAsset restores the wrapped assets\' start/end only if BOTH its own start and end are set (round 2)', 'structured asset with exactly one of start/end, wrapped asset with own window reaching beyond, same objects reused afterwards'),
+ 'C10_d': ('coarse restricted grid cached on the Timegrid keyed by (start, end, freq): stale discount factors (round 2)', 'two assets with the same own freq and window but different wacc set up on the same grid object'),
  'C20_b': ('OrderBook skips set_timegrid when it already holds this grid object (reads another asset\'s restricted grid / wacc)', 'portfolio set up twice on the same Timegrid object with a windowed / other-wacc asset handled just before the book'),
 }
 rows = []
